@@ -12,7 +12,23 @@ NA = [
  ("C16", "single-threaded histories on an in-memory deque compared with an ideal sequence: no I/O, time, fault or concurrency in the property"),
  ("C17", "single-threaded histories on a value type compared with an ideal byte string: no I/O, time, fault or concurrency in the property"),
 ]
+SRVNOTE = "Trusts: the simulated transport/select/clock seams; the accept path is bypassed (AddNewSession); oracles use an independent matcher on a conservative pattern/filter subset (muscle's own per-path matcher where the property names it as the reference); sampling, not enumeration."
 CHECKS = {
+ "C04": dict(engine="netsim/server", section="3 (C04)",
+   text="Seeded multi-client histories against the real ReflectServer (stepped one event-loop iteration at a time under simulated select/clock/transport) with segmentation, slow-reader, stall, cut, reset and clock-jump faults; the subscriber-mark invariant is evaluated after every processed command and every client's mirror is compared with the real tree at every forced quiescent point (bounded-step liveness). Exploration over the seeds run.",
+   note=SRVNOTE, technique="deterministic simulation with fault injection: real server + simulated clients, reference evaluation at linearisation points, mirror/mark oracles at quiescence"),
+ "C05": dict(engine="netsim/server", section="3 (C05)",
+   text="Same harness; routed Messages with conservative and full-syntax keys, filters, default routes, !Self, forged sender ids; the expected recipient set is computed at the instant the server processes each Message (muscle's MatchesPath over every node = the property's brute-force clause, plus an independent matcher) and compared with actual deliveries (exactly once, order, identity) at quiescence. Exploration.",
+   note=SRVNOTE, technique="deterministic simulation: expectation at the server's linearisation point vs. deliveries at quiescence"),
+ "C06": dict(engine="netsim/server", section="3 (C06)",
+   text="Same harness; trespassing commands plus connection cuts after arbitrary byte prefixes (mostly inside a command), resets and closes while other traffic is in flight; per-command tree/mark diff confined to the sender's subtree, no processing of partially received commands, no unexplained disconnects, complete cleanup checked right after each departure. Exploration.",
+   note=SRVNOTE, technique="deterministic simulation with crash-point (cut-at-byte) injection: per-command isolation diff and post-departure cleanup invariants"),
+ "C07": dict(engine="netsim/server", section="3 (C07)",
+   text="Same harness; a hostile client driven by per-handler templates with perturbed arguments (and a minority of flat random Messages) while not reading, victims under C04's oracles, a witness whose ping must be answered within 64 server steps; watchdog turns a non-returning handler into a reported hang. Exploration.",
+   note=SRVNOTE, technique="deterministic simulation: scenario-directed hostile traffic, bounded-liveness witness, watchdog, sanitizers"),
+ "C13": dict(engine="netsim/server", section="3 (C13)",
+   text="Same harness; index-heavy histories; each client replays the index update log and its replica is compared with the real index at every quiescent point; index well-formedness after every processed command. Exploration.",
+   note=SRVNOTE, technique="deterministic simulation: log-replay replica vs. real index at quiescence"),
  "C02": dict(engine="netsim/wire", section="3 (C02)",
    text="Seeded hostile-transport simulation into every gateway input path (binary, templating, zlib, text, raw, SLIP, WebSocket, C mini gateway, both packet tunnels): a real sender's valid stream is rewritten (boundary values in every length/count/type word, flips, truncations incl. inside a consistently framed body, garbage, splices) and fed to a real receiver under a seeded chunk schedule, in an ASan+UBSan build with exact-size frame copies; oracle = no sanitizer report, no hang/no-progress loop, delivered Messages well-formed, receiver reusable after Reset(), allocation <= 256N+1MiB per N-byte frame. Exploration over the seeds run; scoped to parsers reachable through a transport.",
    note="Trusts: ASan/UBSan as the memory-safety oracle (alignment checks off); uninitialised reads are not visible to them; direct calls of Unflatten on caller-supplied buffers and the MicroMessage codec are out of scope; not coverage-guided.",
